@@ -92,6 +92,9 @@ type EPConf struct {
 	// OuterWindow (Clone 2, dtlcp): the ReplayWindow of the listener configuration (-1: left at zero), when it
 	// differs from that of the configuration GetConfigForClient returns
 	OuterWindow int `json:"outer_window,omitempty"`
+	// TrustedCAs (client): Config.TrustedCAIndications names three authorities (a key hash, a certificate hash, a
+	// pre-agreed one), so that the ClientHello carries the trusted_ca_keys extension
+	TrustedCAs bool `json:"trusted_cas,omitempty"`
 	// CertVia: how the key pairs in Certs reach the configuration - 0 all static (Config.Certificates), 1 all
 	// through the callbacks (server: GetCertificate / GetKECertificate, client: GetClientCertificate /
 	// GetClientKECertificate), 2 the first static and the second through its callback
@@ -211,7 +214,12 @@ func (e *EPConf) key(env *Env, name string) crypto.PrivateKey {
 
 // BuildTLCP turns the description into a tlcp.Config. name selects the random stream.
 func (e *EPConf) BuildTLCP(env *Env, name string) *tlcp.Config {
+	var tca []tlcp.TrustedAuthority
+	if e.TrustedCAs {
+		tca = []tlcp.TrustedAuthority{{IdentifierType: tlcp.IdentifierTypeCertSM3Hash, Identifier: bytesOf(0x5c, 32)}, {IdentifierType: tlcp.IdentifierTypePreAgreed}, {IdentifierType: tlcp.IdentifierTypeKeySM3Hash, Identifier: bytesOf(0x4b, 32)}}
+	}
 	c := &tlcp.Config{
+		TrustedCAIndications:        tca,
 		Rand:                        e.rand(env, name),
 		Time:                        e.timeFn(),
 		CipherSuites:                e.Suites,
@@ -276,7 +284,12 @@ func (e *EPConf) BuildTLCP(env *Env, name string) *tlcp.Config {
 
 // BuildDTLCP turns the description into a dtlcp.Config.
 func (e *EPConf) BuildDTLCP(env *Env, name string) *dtlcp.Config {
+	var tca []dtlcp.TrustedAuthority
+	if e.TrustedCAs {
+		tca = []dtlcp.TrustedAuthority{{IdentifierType: dtlcp.IdentifierTypeCertSM3Hash, Identifier: bytesOf(0x5c, 32)}, {IdentifierType: dtlcp.IdentifierTypePreAgreed}, {IdentifierType: dtlcp.IdentifierTypeKeySM3Hash, Identifier: bytesOf(0x4b, 32)}}
+	}
 	c := &dtlcp.Config{
+		TrustedCAIndications:      tca,
 		Rand:                      e.rand(env, name),
 		Time:                      e.timeFn(),
 		CipherSuites:              e.Suites,
@@ -467,3 +480,11 @@ func (p *Pair) CloseTransport() {
 
 var _ net.Conn = (*simnet.Conn)(nil)
 var _ net.PacketConn = (*simnet.PacketConn)(nil)
+
+func bytesOf(b byte, n int) []byte {
+	out := make([]byte, n)
+	for i := range out {
+		out[i] = b
+	}
+	return out
+}
